@@ -234,7 +234,10 @@ func (t *Total) Clone() *Total {
 		nt.Categories[i].Retained = ct.Retained
 		nt.Categories[i].Amount = ct.Amount
 		nt.Categories[i].amount = ct.amount
-		nt.Categories[i].Surcharge = ct.Surcharge
+		if ct.Surcharge != nil {
+			s := *ct.Surcharge // copy, the clone must not share it with the original
+			nt.Categories[i].Surcharge = &s
+		}
 		nt.Categories[i].Rates = make([]*RateTotal, len(ct.Rates))
 		for j, rt := range ct.Rates {
 			nt.Categories[i].Rates[j] = new(RateTotal)
